@@ -733,7 +733,7 @@ func main() {
 }
 
 func c05(c *wk.Ctx) {
-	c.Note("rule", "each case is a generated well-formed IDL package (1-3 interfaces; 0-3 structs, shared and nested; methods with 0-5 parameters and optional return; signals with 1-3 parameters; single-parameter properties; all scalar types, any, Vec, Map, struct references; class tuples adds Tuple<...>; class hygiene draws identifiers from Go keywords, predeclared names, the generators' own local names, imported package names and reserved proxy method names, leaving out the (role, identifier) pairs that are listed as known findings, so that every package of the class is expected to work; class overloads = interfaces with three to six members sharing one name (overloaded methods with different parameter lists, a signal and a property of that name); class kinds = one fixed package with a method, a signal and a property for every basic IDL type; class sweep = a small fixed package with exactly ONE special identifier in ONE role, or two action names differing by the case of the first letter: every (role, identifier) pair in the thorough tier; in the quick tier the 45 pairs made of reserved object / proxy method names used as action names and of capitalisation twins, plus 115 seed-chosen ones; a failing pair is reported under hygiene/role=R/ident=I/symptom=generator-fails | declarations-missing | does-not-compile | round-trip-fails | runner-crashes). The IDL is first accepted by the real IDL parser, then the stub/proxy generator built from the current tree produces Go code; implementors and drivers are emitted by reading the generated code's own interfaces (go/ast). Oracle 1: everything compiles (go build; failing packages are identified from the compiler output and excluded, the rest is rebuilt). Oracle 2 (runner process, real directory server + session): for every method, reflection-filled random arguments arrive at the implementation equal and exactly once and the preset return value arrives at the caller equal; every signal emitted through the generated helper reaches the generated subscriber equal; property set/get/update round-trip and the change callback sees the written value. Distinct non-trivial = distinct packages that compiled and completed at least one round-trip check.")
+	c.Note("rule", "each case is a generated well-formed IDL package (1-3 interfaces; 0-3 structs, shared and nested; methods with 0-5 parameters and optional return; signals with 1-3 parameters; single-parameter properties; all scalar types, any, Vec, Map, struct references; class tuples adds Tuple<...>; class hygiene draws identifiers from Go keywords, predeclared names, the generators' own local names, imported package names and reserved proxy method names, leaving out the (role, identifier) pairs that are listed as known findings, so that every package of the class is expected to work; class overloads = interfaces with three to six members sharing one name (overloaded methods with different parameter lists, a signal and a property of that name); class kinds = one fixed package with a method, a signal and a property for every basic IDL type; class sweep = a small fixed package with exactly ONE special identifier in ONE role, or two action names differing by the case of the first letter: every (role, identifier) pair in the thorough tier; in the quick tier the 45 pairs made of reserved object / proxy method names used as action names and of capitalisation twins, plus 115 seed-chosen ones; a failing pair is reported under hygiene/role=R/ident=I/symptom=generator-fails | declarations-missing | does-not-compile | round-trip-fails | runner-crashes). The IDL is first accepted by the real IDL parser, then the stub/proxy generator built from the current tree produces Go code; implementors and drivers are emitted by reading the generated code's own interfaces (go/ast). Oracle 1: everything compiles (go build; failing packages are identified from the compiler output and excluded, the rest is rebuilt). Oracle 2 (runner process, real directory server + session): for every method, reflection-filled random arguments arrive at the implementation equal and exactly once and the preset return value arrives at the caller equal; every signal emitted through the generated helper reaches the generated subscriber equal; property set/get/update round-trip and the change callback sees the written value. Distinct non-trivial = distinct packages that compiled and completed at least one round-trip check.; mixed concurrent phase: one goroutine per property (set a fresh value, read it back) and per method (up to four) of an interface, all released together through one generated proxy, 25 operations each: no error, every property reads back what its only writer wrote")
 	root := os.Getenv("VERIF_ROOT")
 	if root == "" {
 		root = "/verif"
@@ -937,6 +937,7 @@ func c05(c *wk.Ctx) {
 			case "ok":
 				c.Eval(r.Checks)
 				c.Count("roundtrip_checks", int64(r.Checks))
+				c.Count("members_used_at_the_same_moment_(mixed_concurrent_phase)", int64(r.Mixed))
 				if r.Checks > 0 {
 					c.Nontrivial(wk.Hash64("C05", b.pkg.Text))
 				}
